@@ -103,6 +103,11 @@ def handle (args : List String) : String :=
     (match parseOShape x, parseOShape y, parseOInts c, parseOShape eo, parseOShape bo with
      | some x, some y, some c, some eo, some bo => showVerdict (expandRemovable x y c eo bo)
      | _, _, _, _, _ => bad)
+  | ["ruleFires", op, side, us, x, y, c, eo, bo] =>
+    (match side.toNat?, parseOShape x, parseOShape y, parseOInts c, parseOShape eo, parseOShape bo with
+     | some side, some x, some y, some c, some eo, some bo =>
+       showB (expandRuleFires op side (us == "1") (expandRemovable x y c eo bo))
+     | _, _, _, _, _, _ => bad)
   | ["evShape", s, st, en] =>
     (match parseOShape s, st.toInt?, parseOInt en with
      | some s, some st, some en => showSymConst (evalShape s st en) | _, _, _ => bad)
